@@ -169,8 +169,8 @@ Section ExactMain.
         * destruct Hs as (n & ids & _ & Hs). unfold has in Hs. rewrite Hs. reflexivity.
         * destruct Hs as (n & ps & Hs & _). unfold has in Hs. rewrite Hs. reflexivity.
         * destruct Hs as (kid & vid & Hs & _). unfold has in Hs. rewrite Hs. reflexivity.
-        * destruct Hs as (i & Hs & _). unfold has in Hs. rewrite Hs. reflexivity.
-        * destruct Hs as (i & Hs & _). unfold has in Hs. rewrite Hs. reflexivity.
+        * destruct Hs as (i & Hs & _). unfold has in Hs. rewrite Hs. destruct c; reflexivity.
+        * destruct Hs as (i & Hs & _). unfold has in Hs. rewrite Hs. destruct c; reflexivity.
     - destruct Hrk as [(r & -> & ->)|(-> & ->)]; cbn [kshape] in Hs.
       + destruct Hs as (_ & d & Hd & Hnm). unfold has in Hd. rewrite Hd.
         destruct d; try reflexivity. exfalso. apply Hnm. reflexivity.
@@ -302,7 +302,7 @@ Section ExactMain.
              end /\
                   leaf_x re D T ex (Some l) enum None sv ik items mni mxi props req ap None false false d = true).
         { intros t0 Hk0 Hnle d Hd.
-          destruct k as [| | | |mx mn pat|r|raws|deny| | | |r|]; try contradiction; cbn [kshape] in Hk0;
+          destruct k as [| | | |mx mn pat|r|raws|deny| |c|c|r|]; try contradiction; cbn [kshape] in Hk0;
             cbn beta iota in Hsv, Hlen, Henum, Hikk, Hobj.
           - unfold has in Hk0. rewrite Hk0 in Hd. injection Hd as <-. split; [exact I|]. subst tt enum sv.
             cbn [leaf_x]. unfold common, ty_rep. cbn [forallb]. rewrite (Hvt (JBool true) eq_refl). reflexivity.
@@ -365,19 +365,28 @@ Section ExactMain.
             apply (E_exact _ _ IHap Hf); [destruct nl; exact Hne|exact Hval].
           - (* KVec *)
             destruct Hk0 as (i & Hk0 & Hit).
-            unfold has in Hk0. rewrite Hk0 in Hd. injection Hd as <-. split; [exact I|].
+            unfold has in Hk0. rewrite Hk0 in Hd. injection Hd as <-.
             destruct Hinv as (-> & -> & it & ->). subst enum sv.
-            cbn [leaf_x]. unfold common, ty_rep. cbn [forallb is_none deny_of orb andb elem_x].
-            rewrite (Hvt (JArr []) eq_refl), (len_plain_arity _ _ Hlen). cbn [andb is_none].
             cbn [frag_kind forallb] in Hf. rewrite andb_true_r in Hf.
-            apply (E_exact _ _ (Forall_inv IHitems) Hf); [|exact Hit].
-            destruct nl; cbn [forallb] in Hne; rewrite andb_true_r in Hne; exact Hne.
+            assert (Hel : ex it i = true).
+            { apply (E_exact _ _ (Forall_inv IHitems) Hf); [|exact Hit].
+              destruct nl; cbn [forallb] in Hne; rewrite andb_true_r in Hne; exact Hne. }
+            apply seq_kind_inv in Hlen.
+            destruct c as [| |n]; (split; [exact I|]); cbn [seq_det leaf_x]; unfold common, ty_rep;
+              cbn [forallb is_none deny_of orb andb elem_x]; rewrite (Hvt (JArr []) eq_refl).
+            + rewrite (len_plain_arity _ _ Hlen). exact Hel.
+            + rewrite (len_plain_arity _ _ Hlen). exact Hel.
+            + destruct Hlen as [-> ->]. unfold arity_of. rewrite N.eqb_refl. cbn [andb]. rewrite N.eqb_refl. exact Hel.
           - (* KVecAny *)
             destruct Hk0 as (i & Hk0 & _).
-            unfold has in Hk0. rewrite Hk0 in Hd. injection Hd as <-. split; [exact I|].
+            unfold has in Hk0. rewrite Hk0 in Hd. injection Hd as <-.
             destruct Hinv as (-> & -> & ->). subst enum sv.
-            cbn [leaf_x]. unfold common, ty_rep. cbn [forallb is_none deny_of orb andb elem_x].
-            rewrite (Hvt (JArr []) eq_refl), (len_plain_arity _ _ Hlen). reflexivity. }
+            apply seq_kind_inv in Hlen.
+            destruct c as [| |n]; (split; [exact I|]); cbn [seq_det leaf_x]; unfold common, ty_rep;
+              cbn [forallb is_none deny_of orb andb elem_x]; rewrite (Hvt (JArr []) eq_refl).
+            + rewrite (len_plain_arity _ _ Hlen). reflexivity.
+            + rewrite (len_plain_arity _ _ Hlen). reflexivity.
+            + destruct Hlen as [-> ->]. unfold arity_of. rewrite N.eqb_refl. cbn [andb]. rewrite N.eqb_refl. reflexivity. }
         destruct nl.
         * destruct Hs as (i & Ht & Hki). unfold has in Ht.
           rewrite (gp_option _ _ _ _ _ _ _ _ _ _ _ _ _ _ _ Ht).
